@@ -7,7 +7,7 @@ VERIF = os.path.dirname(os.path.dirname(os.path.abspath(__file__)))
 BASE = os.path.join(VERIF, "seeded")
 # a change anchored in the sampling loop is also run against the sibling loop properties,
 # to see that they stay quiet unless their own statement is broken
-EXTRA = {"C03": ["C04", "C19"], "C04": ["C03", "C19"], "C19": ["C03", "C04"], "C01": ["C02"], "C02": ["C01"]}
+EXTRA = {"C03": ["C04", "C19"], "C04": ["C03", "C19"], "C19": ["C03", "C04"], "C01": ["C02", "C08"], "C02": ["C01", "C08"]}
 REPO = os.environ.get("VERIF_REPO", "/repo")   # a scratch worktree may be used instead of /repo (then the checks run against it too)
 def main():
     only = sys.argv[1:]
